@@ -23,6 +23,7 @@ CONSTANTS
  UseIds = FALSE
  NodeTeardown = TRUE
  MayVanish = TRUE
+ SweepRelays = TRUE
  Aead = TRUE
  CheckIdent = TRUE
  AutoTimers = TRUE
